@@ -3,7 +3,8 @@
 case = {"doc": <gen/docs.py document, unique field names per paragraph>,
         "ops": [["set", pi, fi, value, casemode] | ["add", pi, name, value] |
                 ["del", pi, fi, casemode] | ["delmissing", pi, name]],
-        "view": bool}     # True: go through paragraph.configured_view() (defaults)
+        "view": bool,     # True: go through paragraph.configured_view() (defaults)
+        "blind": bool}    # True: between the operations only the dump is looked at (no look-ups)
 
 Index operands are taken modulo the number of live paragraphs / fields.
 """
@@ -19,7 +20,7 @@ RULE = ("cases are (valid document built from structure: 1..3 paragraphs, unique
         "field comments, interior comments, 10 first-line layouts x 7 continuation shapes, free "
         "comments between paragraphs, with/without final newline) x 1..5 set/add/del operations "
         "with single- and multi-line values (keys as names in any case or as field-name tokens; "
-        "deletion by del, pop() or clear(); assignment through 5 documented routes; refused values); the dump is compared with the model's bytes after "
+        "deletion by del, pop() or clear(); assignment through 5 documented routes; refused values; reads between the edits; one history in three is 'blind': only the dump is looked at between the operations); the dump is compared with the model's bytes after "
         "EVERY operation and a fresh parse at the end. Non-trivial = the history touches a "
         "multi-line or commented field, or the document lacks its final newline, or >=2 "
         "operations hit the same paragraph; distinct = distinct canonical JSON")
@@ -40,7 +41,8 @@ def check(case):
         names = [f["n"].lower() for f in p]
         if len(names) != len(set(names)):
             return (False, ("invalid-case-skipped",))
-    run = DocRun(doc, dups=False, strict_nl=True, use_view=bool(case.get("view")))
+    run = DocRun(doc, dups=False, strict_nl=True, use_view=bool(case.get("view")),
+                 blind=bool(case.get("blind")))
     touched_rich = False
     per_para = {}
     nops = 0
@@ -50,6 +52,16 @@ def check(case):
         p = run.paras[pi]
         what = "%s on paragraph %d" % (op, pi)
         route = op[5] if kind == "set" and len(op) > 5 else op[4] if kind == "add" and len(op) > 4 else None
+        if kind == "get":
+            # a read between the edits (the only look-up by key in a blind history)
+            if op[2] == "absent":
+                run.do_get(pi, (op[4], None), op[3], what)
+            elif p:
+                f = p[op[2] % len(p)]
+                run.token_roles = ("key",) if op[4] >= 3 else ()
+                run.do_get(pi, (spell(f["n"], op[4] % 3), None), op[3], what)
+                run.token_roles = ()
+            continue
         if kind == "setbad":
             if not p:
                 continue
@@ -126,11 +138,16 @@ op = st.one_of(
     st.tuples(st.just("del"), st.integers(0, 5), st.integers(0, 5), st.integers(0, 5),
               st.sampled_from([None, None, "pop"])),
     st.tuples(st.just("clear"), st.integers(0, 5)),
+    st.tuples(st.just("get"), st.integers(0, 5), st.integers(0, 5), st.sampled_from(["item", "get", "in", "kvpair"]),
+              st.integers(0, 5)),
+    st.tuples(st.just("get"), st.integers(0, 5), st.just("absent"), st.sampled_from(["item", "get", "in", "kvpair"]),
+              st.sampled_from(docs.NEW_NAMES + ["Nope"])),
     st.tuples(st.just("delmissing"), st.integers(0, 5), st.sampled_from(["Nope", "zz"])),
 )
 case = st.fixed_dictionaries({"doc": docs.document(dups=False),
                               "ops": st.lists(op, min_size=1, max_size=5),
-                              "view": st.booleans()})
+                              "view": st.booleans(),
+                              "blind": st.sampled_from([False, False, True])})
 
 
 def small_docs():
@@ -161,9 +178,32 @@ def small_docs():
                                     yield {"doc": d, "ops": [o1, o2], "view": True}
 
 
+def read_edit_readd():
+    """Blind histories (no look-ups but the history's own): read a field, delete or replace it,
+    add it (or another) again - every field of a 3-field paragraph, every read form, with
+    comments on every field so that a stale element shows."""
+    p = [{"n": n, "c": "# c-%s\n" % n, "b": " v%d\n" % i} for i, n in enumerate(["Alpha", "Beta", "Gamma"])]
+    for fin in (True, False):
+        d = {"lead": "", "paras": [p], "seps": [], "tail": "", "final_nl": fin}
+        for fi in range(3):
+            for how in ("item", "get", "in", "kvpair"):
+                for mode in (0, 2, 3):
+                    name = p[fi]["n"]
+                    g = ["get", 0, fi, how, mode]
+                    yield {"doc": d, "ops": [g, ["del", 0, fi, 0], ["add", 0, name, "n"]], "view": False, "blind": True}
+                    yield {"doc": d, "ops": [g, ["del", 0, fi, 1, "pop"], ["add", 0, name.lower(), "n\n c"]], "view": False, "blind": True}
+                    yield {"doc": d, "ops": [g, ["del", 0, fi, 0], ["get", 0, "absent", how, name], ["add", 0, "New", "n"]],
+                           "view": False, "blind": True}
+                    yield {"doc": d, "ops": [g, ["set", 0, fi, "m", 0], ["del", 0, fi, 0], ["add", 0, name, "n"]], "view": False, "blind": True}
+                    yield {"doc": d, "ops": [g, ["clear", 0], ["add", 0, name, "n"]], "view": False, "blind": True}
+                    yield {"doc": d, "ops": [g, ["del", 0, (fi + 1) % 3, 0], ["set", 0, 0, "m", 1]], "view": True, "blind": True}
+
+
 def sources(tier):
     if tier == "quick":
         return [Enum("small-docs", small_docs, "1-2 paragraphs x 4 bodies^2 x 8 ops (+ second op)"),
+                Enum("read-edit-readd", read_edit_readd, "blind histories: read (4 forms x 3 key forms) then delete/replace/clear then add, 3 fields x 2 endings"),
                 Hyp("doc-histories", case, 400, shards=8)]
     return [Enum("small-docs", small_docs, "1-2 paragraphs x 4 bodies^2 x 8 ops (+ second op)"),
+            Enum("read-edit-readd", read_edit_readd, "blind histories: read (4 forms x 3 key forms) then delete/replace/clear then add, 3 fields x 2 endings"),
             Hyp("doc-histories", case, 10000, shards=16)]
